@@ -208,6 +208,12 @@ def run(repo: Repo, chk: Check) -> None:
     chk.ob('R-EXC', cs.qualname, ok, 'False on ValueError, True otherwise', cs.loc, {'verdicts': verdicts},
            what='CHECK_SIGNATURE does not map a verification failure to False and success to True')
 
+    # ---- memory across calls (shared rule, sa/statelint.py) ----------------------------------------------------------------------------------
+    chk.set_clause('C07.M')
+    from ..statelint import check_memory
+    check_memory(repo, chk, ['pytezos.crypto.key.'],
+                 'a digest or key object shared between calls is updated in place by the signature libraries: later signatures and verifications are made over another digest')
+
 
 class _CheckSigHooks(Hooks):
     def inline(self, it, fi):
